@@ -167,7 +167,6 @@ func main() {
 	}
 }
 
-
 // modelSummary extracts the parameter and result constants from a solver model.
 func modelSummary(model string) []string {
 	var out []string
